@@ -47,6 +47,8 @@ pub enum Tk {
     Invalid,
     Unassigned,
     PushJumpdests,
+    /// a PUSH32 with only four data bytes (JUMPDEST PC PC SSTORE): cut short by the end of the code when it comes last
+    TruncPush,
     Sentinel,
     J(Target),
     JI(Cond, Target),
@@ -70,6 +72,7 @@ pub fn alphabet() -> Vec<Tk> {
         Tk::Invalid,
         Tk::Unassigned,
         Tk::PushJumpdests,
+        Tk::TruncPush,
         Tk::Sentinel,
     ];
     for t in [Label(0), Label(1), IntoPush, AfterLabel(0), Len, LenPlus1, Big32(0), Big64(0), Big255(0), Computed(0)] {
@@ -141,6 +144,14 @@ pub fn expand(seq: &[Tk]) -> Vec<Tok> {
                 }
                 out.push(Tok::Raw(vec![0x5b, 0x5b]));
             }
+            Tk::TruncPush => {
+                out.push(Tok::Raw(vec![0x7f]));
+                if !marked {
+                    out.push(Tok::Mark(100));
+                    marked = true;
+                }
+                out.push(Tok::Raw(vec![0x5b, 0x58, 0x58, 0x55]));
+            }
             Tk::Sentinel => out.extend([Tok::Op(op::PC), Tok::Op(op::PC), Tok::Op(op::SSTORE)]),
             Tk::Pop => out.push(Tok::Op(op::POP)),
             Tk::Add => out.push(Tok::Op(op::ADD)),
@@ -168,7 +179,7 @@ pub fn expand(seq: &[Tk]) -> Vec<Tok> {
 pub fn well_formed(seq: &[Tk]) -> bool {
     let labels = seq.iter().filter(|t| **t == Tk::L).count();
     let uses_push = seq.iter().any(|t| matches!(t, Tk::J(Target::IntoPush) | Tk::JI(_, Target::IntoPush)));
-    let has_push = seq.iter().any(|t| *t == Tk::PushJumpdests);
+    let has_push = seq.iter().any(|t| *t == Tk::PushJumpdests || *t == Tk::TruncPush);
     if uses_push && !has_push {
         return false;
     }
@@ -465,7 +476,7 @@ impl Check for C08 {
             total.get("with_jump_and_exact_cfg"),
             &format!(
                 "all token sequences of length <= {} over {} control-flow tokens (JUMPDEST, constants, 6 halting instructions incl. \
-                 SELFDESTRUCT/INVALID/unassigned, a PUSH2 holding JUMPDEST bytes, a sentinel store, JUMP x 10 target kinds, JUMPI x 3 \
+                 SELFDESTRUCT/INVALID/unassigned, a PUSH2 holding JUMPDEST bytes, a PUSH32 with four data bytes (JUMPDEST and a store) that the end of the code cuts short, a sentinel store, JUMP x 10 target kinds, JUMPI x 3 \
                  condition kinds x 7 target kinds: labels, into push data, byte after a label, len, len+1, 2^32+label, 2^64+label, 2^255+label, \
                  computed constant). For each program the real VM's executed-offset set (restricted to instruction boundaries) is \
                  compared with a reference EVM control-flow exploration: always a subset of the over-approximated CFG; for loop-free \
